@@ -102,6 +102,9 @@ def extract(tu, sels, recs=(), extra=(), roots=None, overlay=None):
     """Run pikafacts on one TU (cached by TU + flags + selectors + content of every dependency)."""
     flags, _ = base_flags()
     flags = list(flags) + list(extra)
+    # llvm::Regex is POSIX ERE: no \w / \d
+    sels = [s_.replace("\\w", "[A-Za-z0-9_]").replace("\\d", "[0-9]") for s_ in sels]
+    recs = [s_.replace("\\w", "[A-Za-z0-9_]").replace("\\d", "[0-9]") for s_ in recs]
     roots = roots or [REPO + "/", VERIF + "/drivers/"]
     os.makedirs(CACHE, exist_ok=True)
     tool_h = _file_hash(PIKAFACTS)
@@ -558,6 +561,10 @@ def may_throw(ev):
     k = ev.get("k")
     if k == "throw":
         return True
+    if k == "write" and ev.get("try") is not None:
+        return True          # assignment through an overloaded/dependent operator= inside a try block
+    if k == "decl" and ev.get("try") is not None and ev.get("init") is not None:
+        return True          # construction of a local (possibly of dependent type) inside a try block
     if k in ("call", "ctor", "new"):
         if ev.get("noexcept"):
             return False
